@@ -58,6 +58,7 @@ def run_harness(exe, ops, timeout=600, cwd=None, env_extra=None):
         t = parse_blocks(out, ops)
         t.stderr = err
         t.returncode = rc
+        t.raw = out
         if len(t) < len(ops) or rc != 0:
             t.crashed = "harness exit %s after %d/%d ops; stderr tail: %s" % (rc, len(t), len(ops), err[-1500:])
         return t
